@@ -243,9 +243,35 @@ partial def mapParentAlias (child : String) : Json → Json
     | l => .arr (l.map (mapParentAlias child)).toArray
   | j => j
 
+/-- decode `[ 'EXISTS' | 'NOT_EXISTS', [ 'FROM', [ t, 'TABLE', _ ], [ child, 'TABLE', _, [ 'EQ', [COLUMN t lc], [COLUMN child pk] ] ] ],
+               [ 'WHERE', [ 'EQ', [COLUMN parent ppk], [COLUMN t lp] ], conds… ] ]`  (many-to-many through a link table) -/
+def existsPartsM (parent child : String) (ast : Json) : Except String (Bool × List Json) := do
+  match ast with
+  | .arr #[.str head, .arr #[.str "FROM", .arr #[.str t, .str "TABLE", _], .arr #[.str c, .str "TABLE", _, .arr #[.str "EQ", .arr #[.str "COLUMN", .str t1, _], .arr #[.str "COLUMN", .str c1, _]]]], .arr wh] =>
+    let neg ← (match head with
+      | "EXISTS" => pure false
+      | "NOT_EXISTS" => pure true
+      | h => throw s!"head {h}")
+    if c != child || t1 != t || c1 != child || t == child || t == parent then throw "FROM shape"
+    match wh.toList with
+    | .str "WHERE" :: .arr #[.str "EQ", .arr #[.str "COLUMN", .str p1, _], .arr #[.str "COLUMN", .str t2, _]] :: conds =>
+      if p1 == parent && t2 == t && conds.all (aliasesOk child) then pure (neg, conds) else throw "join condition / aliases"
+    | _ => throw "WHERE shape"
+  | _ => throw "EXISTS shape"
+
 def handle (j : Json) : Except String Json := do
   let op ← argStr j "op"
   match op with
+  | "checkexistsm" =>
+      -- the verified checker on the inner conditions of a real many-to-many [NOT] EXISTS (C01_exists_m2m)
+      let d ← dialectOf j
+      let sch ← schemaOfJson (← j.getObjVal? "schema")
+      let e ← exprOfJson (← j.getObjVal? "expr")
+      match existsPartsM (← argStr j "parent") (← argStr j "child") (← j.getObjVal? "ast") with
+      | .error m => pure (Json.mkObj [("accepted", .bool false), ("shape", .str m), ("frag", .bool (frag sch d e))])
+      | .ok (neg, conds) =>
+        let cs ← conds.mapM sqlOfJson
+        pure (Json.mkObj [("accepted", .bool (checkConditions sch d e (SqlList.ofList cs))), ("negated", .bool neg), ("frag", .bool (frag sch d e))])
   | "checkjoin" =>
       -- the verified checker on conditions that read attributes of the referenced object (C01_join / C01_join_required)
       let d ← dialectOf j
